@@ -29,6 +29,9 @@ class ClearNode(ConfigNode):
         if node is None:
             raise KeyError(f'Node {str(self)!r} does not exist in the previous context (possibly deleted?)')
         node.clear()
+        # the emptied node takes the place of the !clear node in the newer document - an explicit delete flag it was given
+        # by an earlier stage would make the merge read its emptiness as the "remove this key" idiom
+        node._delete = None
         return node
 
     @namespace('ayns')
